@@ -1282,6 +1282,7 @@ func (a *analyzer) emit() {
 		"goroutines":                   a.gos,
 		"entry_locks":                  entries,
 		"functions":                    len(a.order),
+		"protocols":                    a.protocols(),
 	}
 	enc := json.NewEncoder(os.Stdout)
 	enc.SetIndent("", " ")
